@@ -243,13 +243,13 @@ func vDial(addr string) (net.Conn, error) {
 		if vNextPort > 60000 {
 			vNextPort = 33000
 		}
-		d := net.Dialer{Timeout: time.Second, LocalAddr: &net.TCPAddr{IP: net.ParseIP("127.0.0.1"), Port: vNextPort}}
+		d := net.Dialer{Timeout: 4 * time.Second, LocalAddr: &net.TCPAddr{IP: net.ParseIP("127.0.0.1"), Port: vNextPort}}
 		var c net.Conn
 		c, err = d.Dial("tcp", addr)
 		if err == nil || errors.Is(err, syscall.ECONNREFUSED) {
 			return c, err
 		}
-		if !errors.Is(err, syscall.EADDRINUSE) && !errors.Is(err, syscall.EADDRNOTAVAIL) {
+		if !errors.Is(err, syscall.EADDRINUSE) && !errors.Is(err, syscall.EADDRNOTAVAIL) && !strings.Contains(err.Error(), "bind:") {
 			return nil, err
 		}
 	}
